@@ -1098,6 +1098,7 @@ def run(ctx):
 
 
 SELFTESTS = [
+    (rule_type_length, ["c01_type_bad.cc"], ["c01_type_good.cc"], "write#2"),
     (rule_empty_files_do_not_overlap, ["c01_ovl_bad.cc"], ["c01_ovl_good.cc"], "last_file_start="),
     (lambda p, fixture=True: c02.rule_entry_fields(p, fixture=True, only=["start_sector", "file_length"], rule_id="R-C01-1"),
      ["c02_bad.cc"], ["c02_good.cc"], "file_length"),
